@@ -216,6 +216,22 @@ func init() {
 		}
 		l.p("/-- `partition.JIterator.advanceChunk`: when the selector answers end of data the iterator keeps the position its chunk iterator stopped at (proposed repair of F59) -/")
 		l.p("def advanceKeepsIteratorPos : Bool := %s", leanBool(keepsIt))
+		rechecks := false
+		if fd := cp.method("fiterator", "Get"); fd == nil {
+			problem("fiterator.Get not found")
+		} else {
+			rechecks = c03RechecksRange(cp, fd)
+		}
+		l.p("/-- `fiterator.Get` re-checks every event against both bounds of the time range (windows of the ranged iterator may be wider than the range) -/")
+		l.p("def fiteratorRechecksRange : Bool := %s", leanBool(rechecks))
+		leaves := false
+		if fd := pp.method("JIterator", "Next"); fd == nil {
+			problem("partition.JIterator.Next not found")
+		} else {
+			leaves = c03NextLeavesWindow(pp, fd)
+		}
+		l.p("/-- `partition.JIterator.Next` leaves the chunk (advanceChunk) when the chunk iterator steps outside [minPos, maxPos] -/")
+		l.p("def nextLeavesChunkOutsideWindow : Bool := %s", leanBool(leaves))
 		l.write()
 	}
 	generators["C03"] = gen
